@@ -174,6 +174,16 @@ pub fn run(cx: &mut Ctx) {
                 check(c, &files, &plan);
             });
         }
+        // many records over one shared body: far more bytes extracted than the image holds
+        cx.case("many_records_one_body", |c| {
+            c.sit("many_records_share_one_body");
+            let mut rng = c.rng.clone();
+            let body = rng.bytes(8192);
+            let files: Files = (0..1100).map(|i| (format!("alias{:04}.bin", i), body.clone())).collect();
+            let plan = ArcPlan { share_bodies: true, padded_header: rng.bool(), tables_first: rng.bool(), ..Default::default() };
+            c.rng = rng;
+            check(c, &files, &plan);
+        });
         for size in [4095usize, 4096, 4097, 8191, 8192, 8193, 12288, 65535, 65536, 65537, 1 << 20] {
             cx.case("body_size_thresholds", |c| {
                 c.sit("body_size_around_multiples_of_4096");
@@ -191,7 +201,7 @@ pub fn run(cx: &mut Ctx) {
             super::poison::maybe(c, 9);
             let mut rng = c.rng.clone();
             let files = gen_arc_files(&mut rng, miri);
-            let mut plan = ArcPlan { padded_header: rng.bool(), shuffle_bodies: rng.bool(), shuffle_records: rng.bool(), gaps: rng.bool(), decoy_labels: rng.bool(), tables_first: rng.chance(1, 3), count_far: rng.chance(1, 4), ..Default::default() };
+            let mut plan = ArcPlan { padded_header: rng.bool(), shuffle_bodies: rng.bool(), shuffle_records: rng.bool(), gaps: rng.bool(), decoy_labels: rng.bool(), tables_first: rng.chance(1, 3), count_far: rng.chance(1, 4), share_bodies: rng.chance(1, 4), ..Default::default() };
             if files.is_empty() {
                 match rng.below(6) {
                     0 => plan.drop_count_label = true,
